@@ -43,10 +43,27 @@ def gen_case(rng, tier, idx):
         # whatever is derived from the window as a whole is a candidate for depending on the end date: CO2 interpolation
         # over the simulated years (sparse user tables, and the decadal part of the default record after 2010), the number
         # of scheduled seasons, the crop calendar
-        prof.update({"co2_p": 0.6, "co2_series_extra_years": 5, "n_seasons": [1, 2, 2, 3], "weather_extra_after": 1500})
+        prof.update({"co2_p": 0.6, "co2_series_extra_years": 5, "n_seasons": [1, 2, 2, 3], "weather_extra_after": 1500, "gw": 0.4})
     spec = gen_spec(rng, prof)
     case = {"spec": spec, "mode": mode, "seed": rng.getrandbits(32), "redraw_every": rng.choice([1, 3, 10, 50, 100000]),
             "partition_k": rng.choice([1, 1, 7, 30, 100000])}
+    if mode == "extend" and spec.get("gw") and len(spec["gw"]["dates"]) >= 2 and rng.random() < 0.7:
+        # a groundwater log kept for longer than this window: observations dated after the end date (they take effect only
+        # once the window reaches them), often in the other depth regime than the in-window ones
+        import datetime as _dt3
+        g = spec["gw"]
+        e0 = parse_date(spec["end"])
+        deep = min(g["values"]) > 3.0
+        for _ in range(rng.randint(1, 3)):
+            d = e0 + _dt3.timedelta(days=rng.randint(1, 1400))
+            ds = d.strftime("%Y%m%d")
+            if ds not in g["dates"]:
+                g["dates"].append(ds)
+                g["values"].append(round(rng.choice([0.4, 0.8, 1.2, 1.6]) if (deep or rng.random() < 0.5) else rng.choice([3.0, 6.0, 12.0]), 2))
+        if g.get("method") == "Constant":
+            order = sorted(range(len(g["dates"])), key=lambda i: g["dates"][i])
+            g["dates"] = [g["dates"][i] for i in order]
+            g["values"] = [g["values"][i] for i in order]
     if mode == "extend":
         case["extend_days"] = sorted(set([rng.choice([1, 2, 30, 200]), rng.choice([365, 366, 730]), rng.choice([731, 1096, 1461])]))
         if rng.random() < 0.3:
